@@ -110,6 +110,11 @@ Section V.
   Definition sumsq (x : vec) : T := dot x x.
   Definition matvec (m : mat) (x : vec) : vec := map (fun r => dot r x) m.
   Definition vzeros (n : Z) : vec := repeatZ zero n.
+  (* transpose and matrix product (numpy's M.T and np.dot(A, B)); the number of columns is read off the first row *)
+  Definition mcol (m : mat) (j : nat) : vec := map (fun r => nth j r zero) m.
+  Definition ncols (m : mat) : nat := match m with [] => O | r :: _ => length r end.
+  Definition matT (m : mat) : mat := map (mcol m) (seq 0 (ncols m)).
+  Definition matmat (a b : mat) : mat := map (fun r => map (fun j => dot r (mcol b j)) (seq 0 (ncols b))) a.
   (* numpy.maximum / numpy.minimum (ties and non-NaN second argument return the SECOND argument) *)
   Definition npmax (a b : T) : T := if lt b a || isnan a then a else b.
   Definition npmin (a b : T) : T := if lt a b || isnan a then a else b.
